@@ -28,8 +28,12 @@ R0 = Fr(10)
 
 
 def bz_of(t):
-    # 1/sqrt(1+t^2) for the listed Pythagorean twists
-    return {Fr(0): Fr(1), Fr(3, 4): Fr(4, 5), Fr(5, 12): Fr(12, 13), Fr(8, 15): Fr(15, 17)}[t]
+    # 1/sqrt(1+t^2): rational for the Pythagorean twists, otherwise through the same uninterpreted sqrt the code meets
+    return 1 / K(1 + t * t).sqrt()
+
+
+def bz_float(t):
+    return 1.0 / float(1 + t * t) ** 0.5
 
 
 def fd_weights(order):
@@ -79,7 +83,8 @@ def work(item):
     symx.set_bv(None)
     nr = 3
     rvals = [Fr(1) + Fr(i, 2) for i in range(nr)]
-    twists = [TWISTS[(i + 1) % 4] if twist_mode == 'radial' else (Fr(0) if twist_mode == 'zero' else TWISTS[1]) for i in range(nr)]
+    iota0 = Fr(3, 4) * R0 / rvals[0]
+    twists = [TWISTS[(i + 1) % 4] if twist_mode == 'radial' else (Fr(0) if twist_mode == 'zero' else rvals[i] * iota0 / R0) for i in range(nr)]
     dz = Fr(3, 4)
     qbreaks = [TWO_PI * Fr(i, nq) for i in range(nq + 1)]
     T = oracle_knots(qbreaks, tdeg, True, tpath)
@@ -140,7 +145,7 @@ def work(item):
                             if not (isinstance(b, int) and b == 0):
                                 v = v + c * b
                         acc = acc + v * ws
-                    exp = acc * (bz_of(t) / dz)
+                    exp = acc * bz_of(t) / K(dz)
                     bad.append(toreal(zt(der[k, q])) != toreal(zt(exp)))
                     where.append((il, ig, k, q))
         res['obligations'] += 1
@@ -155,7 +160,7 @@ def work(item):
             hits = [wh for wh, b in zip(where, bad) if z3.is_true(mdl.eval(b, model_completion=True))][:3]
             prob = float_replay(m, adv, item, rvals, twists, dz, qbreaks, T)
             rep = dict(kind='pargrad', item=[str(x) for x in item[:7]], where=str(hits), concrete=prob, canary=bool(canary))
-            key = 'pargrad:%s' % ('radial_twist_local_index' if (twist_mode == 'radial' and rstart > 0) else 'general')
+            key = 'pargrad:%s' % ('radius_dependent_iota_local_index' if (twist_mode == 'radial' and rstart > 0) else 'general')
             if prob:
                 res['violations'].append((key, '%s (entries local r/global r/z/theta %s)' % (prob, hits[:2]), rep))
             else:
@@ -215,7 +220,7 @@ def float_replay(m, adv, item, rvals, twists, dz, qbreaks, T):
                     for s, ws in zip(shifts, w):
                         th = (qf[q] + iota * dz * s / R0) % TWO_PI
                         acc += ws * SO.eval_fraction(T, tdeg, coefs[(k + s) % nz], th, 0)
-                    exp = float(acc * bz_of(twists[ig]) / dz)
+                    exp = float(acc / dz) * bz_float(twists[ig])
                     worst = max(worst, abs(der[k, q] - exp))
     except Exception as e:
         return 'exception %s: %s' % (type(e).__name__, e)
